@@ -452,13 +452,17 @@ def _raise_for_status_redacted(resp: aiohttp.ClientResponse, url: str) -> None:
         return
     import aiohttp as _aiohttp
     from aiohttp.client_reqrep import RequestInfo
+    from multidict import CIMultiDict, CIMultiDictProxy
     from yarl import URL
 
     safe_url = URL(redact_url(url))
+    # Do not carry the request headers over: aiohttp turns URL userinfo into
+    # ``Authorization: Basic base64(user:password)``, which would put the very
+    # credentials redact_url() strips back into repr(exc) / exc.request_info.
     request_info = RequestInfo(
         safe_url,
         resp.method,
-        resp.request_info.headers,
+        CIMultiDictProxy(CIMultiDict()),
         real_url=safe_url,
     )
     raise _aiohttp.ClientResponseError(
